@@ -44,9 +44,16 @@ LEVEL_TEXT = ("PARTIAL by DESIGN §8's definition: (1) the barrier clause is pro
               "(while a version is awaited and the operator is paused when the consistency block is left, the iteration is held back: at/after "
               "the deadline, after a timed-out sleep, for a GONE cause, for consistency_time 0.0; low-level stages as always), "
               "pause_ignored_when_nothing_expected, awaited_version_releases (the re-listed awaited version resets the worker, paused or not), "
-              "paused_timeout_regression_witness on the pre-fix verdict; held_for_good_witness: the RELEASE is not guaranteed (open finding "
-              "C07-F2 = C03-N6: awaited version lost + accumulated no-op patch before the deadline: no sleep, no event, nobody acts at the deadline), "
-              "replayed on the real code on every run (corpus/C07/F2.json with a pause, F2b.json with a cut stream); "
+              "paused_timeout_regression_witness on the pre-fix verdict; fix 30557a0 + the rework of 608a57d (was finding C07-F2 = C03-N6, and C03-N2 seen "
+              "through the barrier): held_comes_back(+_run) — EVERY held-back iteration of an operator that is not paused reports a waiting delay to "
+              "application.apply: max(0, deadline - now) while a version is awaited (left + wait = max(left, deadline)), 0 when only a carried patch "
+              "holds back; wait_only_when_held (no delay from iterations that are let through or paused); come_back_is_released(+_run) — the "
+              "iteration that reaches the barrier no earlier than asked is let through, whatever version it carries; pending_holds_iff, "
+              "pending_comes_back_at_once; held_for_good_regression_witness and carried_fulfilled_regression_witness on the pre-fix return values. "
+              "'Followed' in the model = the delay is returned; what application.apply does with it (no sleep if the patch changed the object, else "
+              "sleep + touch) is C03/C08's; on the real code the oracle requires every held-back iteration to be followed when the waiting time is "
+              "over (next iteration / a write that changed the object / a 422) and no history to end held back (corpus F2.json, F2b.json, 27 are "
+              "regressions now); patch_initially_empty is derived from 'something was carried' and compared with the real one; "
               "disabled (T=0), deadline_monotone, retire_after_deadline, never_arrives, noop_patch_does_not_arm, "
               "noop_cycle_leaves_consistent (fix 460c956) with noop_stall_regression_witness on the pre-fix feedback; "
               "listed_view_is_not_consistency_witness (a worker that trusts (re-)listed events breaks the barrier: seeded change C14c). "
@@ -58,13 +65,16 @@ THEOREMS = [("Kopf.Props.C07", "Kopf.C07." + n) for n in [
     "barrier_every_patch_view_partial", "not_delayed_kopf", "interrupted_never_achieved", "released_after_deadline", "released_after_deadline_run",
     "deadline_with_patch_regression_witness", "released_by_timeout", "paused_holds", "paused_holds_run",
     "pause_ignored_when_nothing_expected", "awaited_version_releases", "paused_timeout_regression_witness",
-    "held_for_good_witness", "disabled",
+    "held_comes_back", "held_comes_back_run", "wait_only_when_held", "come_back_is_released", "come_back_is_released_run",
+    "held_for_good_regression_witness", "pending_holds_iff", "pending_comes_back_at_once", "carried_fulfilled_regression_witness",
+    "disabled",
     "deadline_monotone", "retire_after_deadline", "never_arrives", "listed_view_is_not_consistency_witness",
     "noop_patch_does_not_arm", "noop_cycle_leaves_consistent", "noop_stall_regression_witness"]]
 RULE = ("seeded whole-operator scenarios: T in {0, 0.25, 1, 5} s; request latency 1-64 ticks, response latency 0-48 ticks; echo delay of "
         "own writes in {0, < T, = T after the patch, = exactly the worker's deadline, > T}; foreign-event delay and jitter; 0-5 foreign "
         "edits before and 0-5 after each chosen own write (reactive offsets), slips right before a PATCH (422 -> remaining patch); create/"
-        "update/delete handlers with temporary errors (several cycles), sleeping handlers; optional event handler (plain/slow/result-"
+        "update/delete handlers with temporary errors (several cycles), sleeping handlers; transformation functions in the patch (20 %; in 40 % of those "
+        "idempotent ones that the slipped-in foreign write fulfils: carried, nothing to send, comes back at once); optional event handler (plain/slow/result-"
         "returning incl. idempotent results = no-op writes), index, daemon, timer (plain/result-returning = background patches); idle_timeout in {0.25, 1, 5}; optional deletion; in 30 % of the histories 1-3 breaks of the watch stream (410 with "
         "compaction -> re-listing, eof, connection reset; queued behind the pending deliveries or cutting the stream at once) timed inside a "
         "sleeping change handler or between an own write and its echo; in 30 % of the histories with T > 0 one or two pause plans (a toggle in the "
@@ -88,8 +98,12 @@ ASSUMPTIONS = ["the barrier theorems are about PATCHes issued by the object's wo
                "`operator_paused.is_on()` is sampled where the code reads it (at the finalizer decision: no suspension point from there to the read when "
                "no sleep is taken; and when the barrier sleep returns)",
                "a paused operator stops its daemons and timers: their schedule from the first pause on is not checked here (C09)",
-               "the release of the barrier ('until … the timeout has elapsed') is checked by the oracle at the end of every history (the last iteration "
-               "of a living object is not held back for good); it is false in one shape: open finding C07-F2 (= C03-N6), held_for_good_witness",
+               "the release of the barrier ('until … the timeout has elapsed'): in the model a held-back iteration RETURNS the remaining waiting time "
+               "(held_comes_back); that application.apply sleeps it and touches the object is C03/C08's ground; on the real code the oracle checks, for "
+               "every held-back iteration, that it is followed when the waiting time is over (+ 5 request round-trips), and at the end of every "
+               "history that the last iteration of a living object is not held back (the former finding C07-F2 = C03-N6, fixed by 30557a0)",
+               "whether carried transformation functions still yield an operation on the view at hand is classified by the harness from the scripted "
+               "functions' semantics (they set one label; the last one wins) for the histograms only: the code decides it when patching (C08)",
                "watch-stream breaks, reconnects and re-listings (410) are generated; operator restarts are not (a fresh operator re-lists the current state; C14/C19's subject)",
                "times are multiples of 1/64 s; a timed-out sleep ends exactly at its deadline under virtual time (the theorems allow any lateness)",
                "GONE causes have no handlers (C05); `handlers` in the model excludes them",
@@ -101,9 +115,6 @@ CHANGE_KINDS = ("create", "update", "delete", "resume", "field")
 F1_SIG = {"site": "daemons._runner/application.apply vs queueing.worker",
           "shape": "change handler on a view older than a daemon/timer PATCH of the same object before the timeout: "
                    "background patches are not reported to the worker"}
-F2_SIG = {"site": "process_resource_causes/application.apply vs queueing.worker",
-          "shape": "held back for good: the awaited version is lost, the held iteration's accumulated patch is a server-side no-op, "
-                   "no event follows and nobody acts when the deadline passes"}
 VER_RE = re.compile(r"(\d+)(~which~never~arrives)?")
 
 
@@ -242,9 +253,16 @@ def gen_scenario(rng: Any, i: int) -> dict:
         # slips in right before one of those requests: 422, the functions are carried into the next iteration
         h = rng.choice([x for x in handlers if x["kind"] in ("create", "update", "event")])
         sc_old = list(h.get("script", []))
-        h["script"] = [["fn", f"L{k}", sc_old[k] if k < len(sc_old) else h.get("default", "ok")] for k in range(max(len(sc_old), rng.choice([1, 2, 4])))]
+        # idempotent: always the same label — a foreign write that slips in right before the JSON patch and sets that very
+        # label fulfils the carried function: it has nothing to do on the next view (nothing is sent: the cycle must come back at once)
+        idem = rng.random() < 0.4
+        h["script"] = [["fn", "S" if idem else f"L{k}", sc_old[k] if k < len(sc_old) else h.get("default", "ok")]
+                       for k in range(max(len(sc_old), rng.choice([1, 2, 4])))]
         for _ in range(rng.choice([1, 1, 2])):
-            slips.append({"nth": rng.choice([1, 2, 2, 3, 4]), "ctype": "json-patch", "op": ["edit", "a", {"spec": {"x": 600 + i % 5}}]})
+            edit: dict = {"spec": {"x": 600 + i % 5}}
+            if idem or rng.random() < 0.2:
+                edit["metadata"] = {"labels": {"c07fn": "S" if idem else rng.choice(["L0", "L1"])}}
+            slips.append({"nth": 1 if idem else rng.choice([1, 2, 2, 3, 4]), "ctype": "json-patch", "op": ["edit", "a", edit]})
     if with_delete and rng.random() < 0.5:
         # the deletion is not left in peace: foreign edits of the terminating object around the framework's writes
         # (their stale views reach the worker while it awaits its own patch), and/or the deletion comes early
@@ -495,7 +513,9 @@ def oracle(ctx: Ctx, sc: dict, tr: dict) -> None:
         # deadline and after the last un-pausing, then the change at hand is never handled: nothing else will bring it up.
         done = [c for c in cycles if c.get("c07") is not None and not c.get("error") and c["c07"].get("matched") is not None]
         # (the object may be gone without the operator having seen it go: released while paused, the stream closed)
-        gone = any(v.get("uid") == uid and v.get("event") == "DELETED" for vs in (tr.get("history") or {}).values() for v in vs)
+        t_gone = min([float(v["t"]) for vs in (tr.get("history") or {}).values() for v in vs
+                      if v.get("uid") == uid and v.get("event") == "DELETED"] or [float("inf")])
+        gone = t_gone < float("inf")
         if done and T > 0 and done[-1] is cycles[-1] and done[-1]["event_type"] != "DELETED" and not gone and _held_back(done[-1]):
             last_c = done[-1]
             c7 = last_c["c07"]
@@ -505,11 +525,12 @@ def oracle(ctx: Ctx, sc: dict, tr: dict) -> None:
             if paused_at_end or t_end < due:
                 ctx.count("held_for_good", "the history ends held back, but paused / too early to tell")
             else:
-                # (a PATCH was sent by that iteration — so a patch had been accumulated — and it was answered with the version
-                # just processed; the iteration took no barrier sleep and began before the worker's deadline)
+                # (the shape of the former finding C07-F2 = C03-N6, repaired by 30557a0: a PATCH was sent by that iteration — so a
+                # patch had been accumulated —, it was answered with the version just processed, no barrier sleep, begun before
+                # the worker's deadline. Named in the message only: every history that ends held back for good is a violation.)
                 noop = (last_c.get("result_rv") is not None and str(last_c["result_rv"]) == str(last_c["rv"]) and c7.get("sleep") is None
                         and c7["consistency_time"] is not None and last_c["loop_t0"] < c7["consistency_time"] and not was_paused)
-                ctx.count("held_for_good", "held back for good" + (": a patch accumulated by the low-level handlers, a no-op on the server (F2)" if noop else ""))
+                ctx.count("held_for_good", "held back for good" + (": a patch accumulated by the low-level handlers, a no-op on the server" if noop else ""))
                 ctx.oracle_fail(
                     f"the last event {last_c['rv']} of the object was held back at t={last_c['t0']} (consistency_time "
                     f"{c7['consistency_time']}, operator {'paused' if was_paused else 'not paused'}) and nothing let its change through to the "
@@ -518,12 +539,52 @@ def oracle(ctx: Ctx, sc: dict, tr: dict) -> None:
                     + ("; the iteration had a patch accumulated by its low-level handlers (so it did not sleep), the PATCH changed nothing "
                        "on the server (answered with the version just processed), so no event followed and the deadline passed unnoticed" if noop else ""),
                     {"scenario": sc, "cycle": last_c["i"]},
-                    F2_SIG if noop else {"site": "process_resource_causes/queueing.worker", "shape": "change handlers held back for good"})
+                    {"site": "process_resource_causes/queueing.worker", "shape": "change handlers held back for good"})
         elif done and T > 0:
             ctx.count("held_for_good", "the last iteration is not held back")
             for cyc in done:
                 if cyc["c07"]["consistency_time"] is not None and _paused_at_exit(cyc["c07"]) and _held_back(cyc):
                     ctx.count("paused", "… and a later iteration of the object is not held back")
+        # "… UNTIL … the consistency timeout has elapsed": somebody must act when it has. A held-back iteration of a living
+        # object (operator running, not paused when the iteration gave up) is followed — by the time the waiting is over, plus
+        # the time the requests of one cycle take — by the next iteration of the object, or by a write of the framework that
+        # changed the object (its event is owed by the API), or by a write that was rejected because a newer version exists
+        # (that version's event is owed). Otherwise nothing will ever look at the deadline: the worker idles past it and retires.
+        Lq = (int(sc["c07"].get("latency", 1)) + int(sc["c07"].get("resp_latency", 0))) / 64.0
+        for n, cyc in enumerate(cycles):
+            c7 = cyc.get("c07")
+            if (c7 is None or cyc.get("error") or c7.get("matched") is None or c7.get("t_out") is None or T == 0
+                    or cyc["event_type"] == "DELETED" or not _held_back(cyc)):
+                continue
+            wall_off = cyc["t0"] - cyc["loop_t0"]
+            t_gave_up = c7["t_out"] + wall_off
+            if c7["consistency_time"] is not None and _paused_at_exit(c7):
+                ctx.count("come_back", "held while paused: nothing is owed (the un-pausing re-lists)")
+                continue
+            over = t_gave_up if c7["consistency_time"] is None else max(t_gave_up, c7["consistency_time"] + wall_off)
+            due = over + 5 * Lq + 1 / 64.0
+            if due >= min(t_end, t_gone):
+                ctx.count("come_back", "held back, too close to the end of the history (or of the object) to tell")
+                continue
+            nxt = cycles[n + 1] if n + 1 < len(cycles) else None
+            mine = [p for p in tr["patches"] if p.get("cycle") == cyc["i"] and p.get("target_uid") == uid]
+            changed = [p for p in mine if p.get("response") == 200 and p.get("applied_rv") is not None
+                       and str(p["applied_rv"]) != str(cyc["rv"]) and float(p["t_applied"]) + wall_off <= due]
+            rejected = [p for p in mine if p.get("response") in (422, 409)]
+            vanished = [p for p in mine if p.get("response") == 404]
+            how = ("the next iteration began" if nxt is not None and nxt["t0"] <= due else
+                   "a write changed the object (the patch, or the touch when the waiting was over)" if changed else
+                   "a write was rejected: a newer version exists" if rejected else
+                   "the object is gone (404)" if vanished else None)
+            ctx.count("come_back", ("followed: " + how) if how else "NOT followed when the waiting time was over")
+            if how is None:
+                ctx.oracle_fail(
+                    f"event {cyc['rv']} of the object was held back at t={cyc['t0']} (consistency_time {c7['consistency_time']}, given up at "
+                    f"t={t_gave_up}) and by t={due} — the waiting time over at {over}, plus the requests of one cycle — neither the next "
+                    f"iteration had begun (next: {nxt and nxt['t0']}) nor had the framework written anything that changes the object "
+                    f"(requests of the iteration: {[(p.get('response'), p.get('applied_rv'), p.get('t_applied')) for p in mine]})",
+                    {"scenario": sc, "cycle": cyc["i"]},
+                    {"site": "process_resource_causes/application.apply", "shape": "held-back iteration not followed when the waiting time is over"})
         # a new arrival ends the barrier sleep at once: its own low-level processing is not held up
         pos = 0
         for life in o["lives"]:
@@ -692,8 +753,13 @@ def abstract(sc: dict, tr: dict) -> list[dict]:
                     cand = [p for p in o["own"] if p["cycle"] == c["i"] and p["applied_rv"] == str(patched[0])]
                     if cand:
                         tp = ticks(cand[-1]["t_applied"])
+                # what the cycle began with: something carried over from a 422 (`memory.remaining_patch`, read by sim_c07
+                # before the cycle)? The model derives `patch_initially_empty` from it; the real one is compared with it.
+                cr = c7.get("carried") or {}
+                if cr.get("carried") is None:
+                    raise TraceShape(f"cycle {c['i']}: memory.remaining_patch was not observed before the cycle: {cr}")
                 it = {"ver": parse_ver(c["rv"]), "now": now, "dur": tmid - now, "pressure": bool(c7["pressure_mid"]), "wake": wake,
-                      "lag": 0, "gone": c["reason"] == "gone", "required": required, "patchInit": bool(c7["patch_init_empty"]),
+                      "lag": 0, "gone": c["reason"] == "gone", "required": required, "carried": bool(cr["carried"]),
                       "patchMid": bool(c7["patch_mid_empty"]), "patched": patched, "tp": tp, "tret": tret,
                       "listed": c["event_type"] is None}
                 s = c7["sleep"]
@@ -704,14 +770,31 @@ def abstract(sc: dict, tr: dict) -> list[dict]:
                     raise TraceShape("the state of operator_paused was not observed")
                 it["paused"] = bool(pz)
                 steps.append({"event": it})
+                held_real = bool(required and not c7["matched"])
+                # the waiting delay of the early return (fix 30557a0): what a held-back iteration returns beyond the
+                # delays of the spawning stage; and when the consistency block was left (no suspension point up to the
+                # return of a held-back iteration / the entry of process_changing_cause)
+                # what `process_resource_causes` returned = the delays of the spawning stage + those of the changing stage (if it
+                # was entered) + at most one more: the waiting delay
+                sd = list(c7.get("spawn_delays") or [])
+                cd = list(c7.get("changing_delays") or [])
+                do = c7.get("delays_out")
+                if do is None:
+                    raise TraceShape(f"cycle {c['i']}: the delays returned by process_resource_causes were not observed")
+                stage_delays_kept = do[:len(sd) + len(cd)] == sd + cd
+                extra = do[len(sd) + len(cd):] if stage_delays_kept else do
+                wait_real = ticks(extra[0]) if len(extra) == 1 else None
+                left_real = ticks(c7["t_out"]) if held_real else ticks(c7["pcc_t"])
                 impl.append({"given": ticks(c["consistency_time"]),
                              "slept": None if s is None else [ticks(s["t1"]), bool(s["timed_out"])],
-                             "entered": ticks(c7["pcc_t"]), "held": bool(required and not c7["matched"]),
+                             "entered": ticks(c7["pcc_t"]), "held": held_real, "wait": wait_real, "left": left_real,
+                             "delays": {"stage_delays_kept": stage_delays_kept, "more": len(extra)},
+                             "patchInit": bool(c7["patch_init_empty"]),
                              "first_handler": ticks(mine[0]["t"]) if mine else None,
                              "t_index": ticks(min(t_ix)) if t_ix else None, "t_event": ticks(min(t_ev)) if t_ev else None,
                              "t_spawn": ticks(c7["t_spawn0"]) if c7.get("t_spawn0") is not None else None,
                              "eos_wake": bool(s is not None and not s["timed_out"] and nxt_items and nxt_items[0][1] == "EOS")})
-                where.append({"uid": uid, "cycle": c["i"]})
+                where.append({"uid": uid, "cycle": c["i"], "stage_delays": len(sd) + len(cd), "carried_ops": cr.get("ops")})
             if truncated:
                 break
         if not truncated:
@@ -741,11 +824,16 @@ def _sanity(sc: dict, tr: dict) -> None:
             raise RuntimeError(f"harness: the fake API delivered one object's events out of order: {rvs}")
 
 
+def sc_has_stage_delays(run: dict, wh: dict) -> bool:
+    return bool(wh.get("stage_delays"))
+
+
 def _shape(it: dict, m: dict) -> dict:
     o = m["outcome"]
     return {"given": o["given"] is not None, "slept": None if o["slept"] is None else ("timeout" if o["slept"][1] else "woken"),
             "held": o["held"], "entered": o["entered"] is not None, "handlers": o["handlers"] is not None,
-            "gone": it["gone"], "req": it["required"], "pI": it["patchInit"], "pM": it["patchMid"], "press": it["pressure"],
+            "wait": None if o["wait"] is None else ("zero" if o["wait"] == 0 else "positive"),
+            "gone": it["gone"], "req": it["required"], "pI": m["patchInit"], "carried": it["carried"], "pM": it["patchMid"], "press": it["pressure"],
             "patched": it["patched"] is not None, "never": bool(it["patched"] and it["patched"][1]),
             "reset": o["given"] is None and m.get("_prev_deadline") is not None, "after": m["after"]["deadline"] is not None,
             "dur": it["dur"] > 0}
@@ -901,9 +989,24 @@ def evaluate(ctx: Ctx, scenarios: list[dict], results: list[dict], tie: bool = T
             if impl["t_index"] is not None or impl["t_event"] is not None:
                 ctx.count("low_level_stages", "timed against the model" + (" (deadline set)" if shape["given"] else ""))
             model = {"given": o["given"], "slept": o["slept"], "entered": o["entered"], "held": o["held"], "ok": m["ok"],
-                     "low": mlow, "order": [a for a, _ in o["low"]]}
+                     "low": mlow, "order": [a for a, _ in o["low"]], "wait": o["wait"], "patchInit": m["patchInit"],
+                     "left": o["left"] if impl["left"] is not None else None,
+                     "delays": {"stage_delays_kept": True, "more": 0 if o["wait"] is None else 1}}
             real = {"given": impl["given"], "slept": impl["slept"], "entered": impl["entered"], "held": impl["held"], "ok": True,
-                    "low": rlow, "order": ["indexing", "watching", "spawning"]}
+                    "low": rlow, "order": ["indexing", "watching", "spawning"], "wait": impl["wait"], "patchInit": impl["patchInit"],
+                    "left": impl["left"], "delays": impl["delays"]}
+            if impl["held"] and sc_has_stage_delays(run, wh):
+                ctx.count("come_back", "held back with delays of the spawning stage (daemons being stopped): both reported")
+            if st["event"]["carried"]:
+                ctx.count("carried_patch", "pending (change handlers held back, re-sent)"
+                          + {True: ": still has something to do on the view at hand", False: ": fulfilled already on the view at hand (nothing to send: comes back at once)",
+                             None: ""}[wh.get("carried_ops")])
+            if o["held"]:
+                ctx.count("come_back", "held back, paused: no delay" if st["event"]["paused"] else
+                          "held back, nothing awaited (pending patch): waiting delay 0, come back at once" if o["given"] is None else
+                          "held back: waiting delay 0 (the deadline is over)" if o["wait"] == 0 else
+                          "held back: waiting delay = what is left till the deadline"
+                          + (" (patch accumulated, no sleep)" if o["slept"] is None else " (sleep interrupted)"))
             ctx.compare("C07 worker iteration (consistency_time given, barrier sleep, decision)", real, model, rep)
             if impl["first_handler"] is not None:
                 ok = o["handlers"] is not None and o["handlers"] <= impl["first_handler"]
